@@ -78,7 +78,7 @@ def run_check(pid, tier, seed):
         model += proto.run_model(clines[i:i + CH])
     disagreements = []
     for l, a, b in zip(clines, cimpl, model):
-        if not core.same(a, b):
+        if not core.same(l, a, b):
             disagreements.append({"line": l, "implementation": a, "model": b})
     # 4. verdict
     known = {k["key"]: k for k in core.load_known() if k["property"] == pid}
